@@ -65,15 +65,22 @@ impl BitmapEvent {
         match self.bpp {
             32 => {
                 // 32 bpp is straight forward
-                Ok(
-                    if self.is_compress {
-                        let mut result = vec![0 as u8; self.width as usize * self.height as usize * 4];
-                        rle_32_decompress(&self.data, self.width as u32, self.height as u32, &mut result)?;
-                        result
-                    } else {
-                        self.data
+                let width = self.width as usize;
+                let height = self.height as usize;
+                let mut result = vec![0 as u8; width * height * 4];
+                if self.is_compress {
+                    rle_32_decompress(&self.data, self.width as u32, self.height as u32, &mut result)?;
+                } else {
+                    // uncompressed bitmaps are sent bottom-up, like the 16 bpp ones
+                    if self.data.len() < width * height * 4 {
+                        return Err(Error::RdpError(RdpError::new(RdpErrorKind::InvalidSize, "Bitmap data shorter than width x height")))
                     }
-                )
+                    for i in 0..height {
+                        let src = (height - i - 1) * width * 4;
+                        result[i * width * 4..(i + 1) * width * 4].copy_from_slice(&self.data[src..src + width * 4]);
+                    }
+                }
+                Ok(result)
             },
             16 => {
                 // 16 bpp is more consumer
